@@ -51,8 +51,8 @@ TMut == /\ IsEvent("Mut")
            /\ Assert(e.mut.m = "random" \/ e.bytes = ApplyMut(e.orig, e.mut),
                      <<"recorded octets are not the announced mutation of the original", e.mut>>)
            /\ Assert(e.mut.m \in {"random", "none"} \/
-                     \E i \in DOMAIN Fields(e.orig, e.opts) :
-                        LET f == Fields(e.orig, e.opts)[i] IN f.o = e.mut.o /\ f.w = e.mut.w,
+                     LET fs == Fields(e.orig, e.opts) IN
+                     \E i \in DOMAIN fs : fs[i].o = e.mut.o /\ fs[i].w = e.mut.w,
                      <<"mutated offset is not a length field of the original for this reader", e.mut>>)
            /\ ov' = [c \in 0..7 |-> Overrun(e.bytes, ClassOpts(c))]
            /\ NoteIf(\E c \in 0..7 : Overrun(e.bytes, ClassOpts(c)), e.bytes)
@@ -79,10 +79,11 @@ C04_SizeCap == (IsMsg /\ Ev.sererr) => (Modelled /\ ~EncodableLo(Ev.shape, Ev.op
 
 (* every Len() = the extent the independent reader finds for that element
    (a = Len() values logged for the constructed / the re-parsed message) *)
-LensAgree(a) ==
+LensAgreeTol(a, tol(_)) ==
   CASE rd.body.t = "update" ->
          LET pre4 == Pre(1, 1, Ev.opts) IN
-         /\ a.attrs = Lens(rd.body.attrs)
+         /\ Len(a.attrs) = Len(rd.body.attrs.els)
+         /\ \A i \in DOMAIN a.attrs : a.attrs[i] = rd.body.attrs.els[i].n \/ tol(i)
          /\ Len(a.wd) = Len(rd.body.wd.els) /\ \A i \in DOMAIN a.wd : a.wd[i] + pre4 = rd.body.wd.els[i].n
          /\ Len(a.nlri) = Len(rd.body.nlri.els) /\ \A i \in DOMAIN a.nlri : a.nlri[i] + pre4 = rd.body.nlri.els[i].n
          /\ Len(a.mp) = Len(rd.body.inner)
@@ -95,6 +96,8 @@ LensAgree(a) ==
          /\ Len(a.caps) = Len(rd.body.caps)
          /\ \A i \in DOMAIN a.caps : a.caps[i] = Lens(rd.body.caps[i])
     [] OTHER -> TRUE
+NoTol(i) == FALSE
+LensAgree(a) == LensAgreeTol(a, NoTol)
 Readable == Emitted /\ rd.hdr.ok /\ rd.body.ok
 C04_LenAgrees    == Readable => LensAgree(Ev.lens)
 C04_LenAgreesDec == (Readable /\ ~Ev.parseerr) => LensAgree(Ev.relens)
@@ -126,9 +129,10 @@ Over(c, id) ==
     [] c.e = "nlri" -> NlriSliceOver(c.afi, c.safi, SliceOf(c))
     [] c.e = "cap"  -> CapSliceOver(SliceOf(c))
     [] OTHER        -> FALSE
-C05_NoOverRead ==
-  \A c \in Cases : \A k \in DOMAIN c.po :
+OverReadOk(c) ==
+  \A k \in DOMAIN c.po :
      (c.po[k] < 16 /\ ~c.panic /\ ~c.timeout /\ Over(c, c.po[k])) => c.ret # "val"
+C05_NoOverRead == \A c \in Cases : OverReadOk(c)
 
 (* what the daemon goes on to use can be rendered, measured and re-serialised *)
 Used(c) == c.ret = "val" \/ (c.ret = "both" /\ c.cls \in {"discard", "withdraw"})
@@ -136,4 +140,100 @@ C05_RenderSafe == \A c \in Cases : Used(c) => ~c.rpanic
 
 AllocBoundKB == 32768
 C05_BoundedAlloc == \A c \in Cases : c.alloc <= AllocBoundKB
+
+---------------------------------------------------------------------------
+(* KNOWN FINDINGS (known_findings.jsonl).  Each predicate identifies exactly one recorded defect
+   of the pinned tree; the *_KF invariants tolerate that and nothing else.  KfNote records
+   <<finding id, strict invariant, line>> in TLC register 3 whenever the strict invariant fails
+   on a line that the predicate covers; the driver turns the records into KNOWN-FINDING lines
+   (or into violations when the id is not listed in known_findings.jsonl). *)
+ASSUME TLCSet(3, {})
+KfNote(id, inv, cond) == IF cond THEN TLCSet(3, TLCGet(3) \cup {<<id, inv, l - 1>>}) ELSE TRUE
+KfReport == PrintT("VPOUT " \o ToJson([kf |-> TLCGet(3)]))
+
+IsUpd == rd.body.t = "update" /\ rd.body.ok
+AttrN(i) == rd.body.attrs.els[i].n
+
+(* KF-C04-mp-addpath-len: NewPathAttributeMpReachNLRI / MpUnreachNLRI size the cached Length
+   from NLRI.Len() only; with ADD-PATH on for the family the 4-octet path identifiers are
+   emitted but not counted (one more octet when the real value crosses 255). *)
+KF_MpAddPathLen(a, i) ==
+  LET x == rd.body.inner[i] IN
+  /\ x.k \in {"mp", "mpun"} /\ x.pre = 4 /\ Len(x.w.els) > 0
+  /\ AttrN(i) - a.attrs[i] \in {4 * Len(x.w.els), 4 * Len(x.w.els) + 1}
+(* KF-C04-tunnelencap-len: the tunnel-encapsulation sub-TLV constructors never set the cached
+   Length that TunnelEncapSubTLV.Len() / NewPathAttributeTunnelEncap rely on. *)
+KF_TunnelEncapLen(a, i) == AttrType(Ev.bytes, rd.body.attrs.els[i]) = 23 /\ a.attrs[i] < AttrN(i)
+LenTol(i) == KF_MpAddPathLen(Ev.lens, i) \/ KF_TunnelEncapLen(Ev.lens, i)
+C04_LenAgrees_KF == Readable => LensAgreeTol(Ev.lens, LenTol)
+
+(* KF-C04-evpn-ipmsi: NewEVPNIPMSIRoute builds a route type 9 NLRI whose Serialize emits 28 octets
+   under a length octet of 20 (a 20-octet buffer to which the 8-octet community is APPENDED), and
+   which the decoder's dispatch (getEVPNRouteType) does not know. *)
+KF_EvpnIpmsi == Emitted /\ Ev.shape.k = "ex" /\ Ev.shape.name = "nlri:l2vpn-evpn-ipmsi"
+(* KF-C04-encap-multi: EncapNLRI.decodeFromBytes takes the rest of the attribute as the address,
+   so a second ENCAP NLRI in the same attribute is mis-framed. *)
+KF_EncapMulti ==
+  /\ Emitted /\ Ev.parseerr /\ IsUpd
+  /\ \E i \in DOMAIN rd.body.inner :
+       LET x == rd.body.inner[i] IN x.k \in {"mp", "mpun"} /\ x.safi = 7 /\ Len(x.w.els) >= 2
+(* KF-C04-flowspec-long-len: FlowSpecNLRI.Serialize writes the 2-octet length (>= 240 octets of
+   components) into the component buffer instead of the prefix and without the 0xf marker. *)
+KF_FlowSpecLong == Emitted /\ Ev.shape.k = "ex" /\ Ev.shape.name = "nlri:ipv4-flowspec-long"
+(* KF-C04-open-optparam-overflow: BGPOpen.Serialize / OptionParameterCapability.Serialize truncate
+   lengths above 255 to one octet instead of refusing the message. *)
+KF_OpenOverflow == Emitted /\ Ev.shape.k = "open" /\ ~EncodableHi(Ev.shape, Ev.opts)
+
+C04_FramingWellFormed_KF == C04_FramingWellFormed \/ KF_EvpnIpmsi \/ KF_FlowSpecLong \/ KF_OpenOverflow
+C04_ShapeRoundTrip_KF    == C04_ShapeRoundTrip \/ KF_EvpnIpmsi \/ KF_EncapMulti \/ KF_FlowSpecLong \/ KF_OpenOverflow
+C04_Fixpoint_KF          == C04_Fixpoint \/ KF_OpenOverflow
+C04_Equal_KF             == C04_Equal \/ KF_OpenOverflow
+
+C04_KfCount ==
+  /\ KfNote("KF-C04-mp-addpath-len", "C04_LenAgrees",
+            Readable /\ IsUpd /\ Len(Ev.lens.attrs) = Len(rd.body.attrs.els) /\
+            \E i \in DOMAIN Ev.lens.attrs : Ev.lens.attrs[i] # AttrN(i) /\ KF_MpAddPathLen(Ev.lens, i))
+  /\ KfNote("KF-C04-tunnelencap-len", "C04_LenAgrees",
+            Readable /\ IsUpd /\ Len(Ev.lens.attrs) = Len(rd.body.attrs.els) /\
+            \E i \in DOMAIN Ev.lens.attrs : Ev.lens.attrs[i] # AttrN(i) /\ KF_TunnelEncapLen(Ev.lens, i))
+  /\ KfNote("KF-C04-evpn-ipmsi", "C04_FramingWellFormed", ~C04_FramingWellFormed /\ KF_EvpnIpmsi)
+  /\ KfNote("KF-C04-evpn-ipmsi", "C04_ShapeRoundTrip", ~C04_ShapeRoundTrip /\ KF_EvpnIpmsi)
+  /\ KfNote("KF-C04-encap-multi", "C04_ShapeRoundTrip", ~C04_ShapeRoundTrip /\ KF_EncapMulti)
+  /\ KfNote("KF-C04-flowspec-long-len", "C04_FramingWellFormed", ~C04_FramingWellFormed /\ KF_FlowSpecLong)
+  /\ KfNote("KF-C04-flowspec-long-len", "C04_ShapeRoundTrip", ~C04_ShapeRoundTrip /\ KF_FlowSpecLong)
+  /\ KfNote("KF-C04-open-optparam-overflow", "C04_FramingWellFormed", ~C04_FramingWellFormed /\ KF_OpenOverflow)
+  /\ KfNote("KF-C04-open-optparam-overflow", "C04_ShapeRoundTrip", ~C04_ShapeRoundTrip /\ KF_OpenOverflow)
+  /\ KfNote("KF-C04-open-optparam-overflow", "C04_Fixpoint", ~C04_Fixpoint /\ KF_OpenOverflow)
+  /\ KfNote("KF-C04-open-optparam-overflow", "C04_Equal", ~C04_Equal /\ KF_OpenOverflow)
+
+(* KF-C05-pmsi-render: a PMSI_TUNNEL attribute whose decoding failed stays in the message that is
+   handed back with a treat-as-withdraw error; its TunnelID is nil and MarshalJSON / Serialize
+   dereference it. *)
+KF_PmsiRender(c) == c.rpanic /\ c.rat \in {"attr22.MarshalJSON", "attr22.Serialize"}
+(* KF-C05-body-ignores-header-len: parseBody only checks that AT LEAST header.Len-19 octets are
+   there and then decodes every octet it was given. *)
+KF_BodyIgnoresHdrLen(c) == c.e = "bodyraw" /\ U16(Ev.bytes, 16) < Len(Ev.bytes)
+
+(* KF-C05-encap-short: EncapNLRI.decodeFromBytes never compares the declared length with the
+   octets it was given (same code site as KF-C04-encap-multi). *)
+AttrSliceSafi(b) ==
+  LET n == ElemLen("attr", 0, b, 0, Len(b)) IN
+  IF n < 0 \/ n > Len(b) THEN 0 ELSE AttrInner(b, [o |-> 0, n |-> n], ClassOpts(0)).safi
+MsgHasSafi(b, sf) ==
+  LET r == ReadMsg(b, ClassOpts(0)) IN
+  r.body.t = "update" /\ \E i \in DOMAIN r.body.inner : r.body.inner[i].safi = sf
+ConcernsSafi(c, sf) ==
+  CASE c.e = "nlri" -> c.safi = sf
+    [] c.e = "attr" -> AttrSliceSafi(SliceOf(c)) = sf
+    [] OTHER        -> MsgHasSafi(Ev.bytes, sf)
+KF_EncapShort(c) == ConcernsSafi(c, 7)
+
+C05_RenderSafe_KF == \A c \in Cases : Used(c) => (~c.rpanic \/ KF_PmsiRender(c))
+C05_NoOverRead_KF == \A c \in Cases : OverReadOk(c) \/ KF_BodyIgnoresHdrLen(c) \/ KF_EncapShort(c)
+
+C05_KfCount ==
+  /\ KfNote("KF-C05-pmsi-render", "C05_RenderSafe", \E c \in Cases : Used(c) /\ KF_PmsiRender(c))
+  /\ KfNote("KF-C05-body-ignores-header-len", "C05_NoOverRead",
+            \E c \in Cases : ~OverReadOk(c) /\ KF_BodyIgnoresHdrLen(c))
+  /\ KfNote("KF-C05-encap-short", "C05_NoOverRead", \E c \in Cases : ~OverReadOk(c) /\ KF_EncapShort(c))
 =============================================================================
